@@ -3,6 +3,7 @@
 #include <pthread.h>
 #include <sched.h>
 #include <signal.h>
+#include <execinfo.h>
 #include <stdlib.h>
 #include <string.h>
 #include <unistd.h>
@@ -337,6 +338,13 @@ static void on_signal(int sig)
 {
 	/* an internal DISPATCH_*_CRASH (ud2 => SIGILL) or a memory error: keep the evidence */
 	_dispatch_verif_pre = NULL; _dispatch_verif_post = NULL; _dispatch_verif_probe = NULL;
+	/* where: the crashing thread's stack (addresses; `addr2line -f -e <driver>` names them) */
+	{
+		void *bt[32];
+		int n = backtrace(bt, 32);
+		fprintf(stderr, "VRT: backtrace of the crashing thread (tid %d):\n", vrt_tid());
+		backtrace_symbols_fd(bt, n, 2);
+	}
 	dump_with("Crash", sig);
 	fprintf(stderr, "VRT: fatal signal %d\n", sig);
 	_exit(70);
